@@ -121,7 +121,7 @@ class ArffAttrReader(Filter[Iterable[str], Iterable[Tuple[str,Callable]]]):
 
 class ArffDataReader(Filter[Iterable[str], Iterable[Union[Dense,Sparse]]]):
 
-    _trans = str.maketrans('','',' \t\n\r\v\f')
+    _trans = str.maketrans('\t',',',' \n\r\v\f') #tabs can be delimiters too
 
     def __init__(self, is_dense:bool) -> None:
         self._is_dense = is_dense
